@@ -166,7 +166,14 @@ pub fn enum_def(e: &EnumSpec, o: &EnumOpts) -> String {
             }
         }
     }
+    for d in &e.decoys {
+        let _ = writeln!(s, "{}", d);
+    }
     s.push_str("//@item\n");
+    if !e.macro_args.is_empty() {
+        let ps: Vec<String> = e.macro_args.iter().map(|(n, k, _)| format!("${}:{}", n, k)).collect();
+        let _ = writeln!(s, "macro_rules! mk_item {{ ({}) => {{", ps.join(", "));
+    }
     let noise = |s: &mut String, slot: u8| {
         for (sl, t) in &e.noise {
             if *sl == slot {
@@ -184,7 +191,10 @@ pub fn enum_def(e: &EnumSpec, o: &EnumOpts) -> String {
     }
     noise(&mut s, 1);
     if let Some(r) = &e.repr {
-        let _ = writeln!(s, "#[repr({})]", r);
+        // `a; b` = two separate attributes
+        for part in r.split(';') {
+            let _ = writeln!(s, "#[repr({})]", part.trim());
+        }
     }
     noise(&mut s, 2);
     for (gi, grp) in e.groups.iter().enumerate() {
@@ -286,6 +296,10 @@ pub fn enum_def(e: &EnumSpec, o: &EnumOpts) -> String {
         s.push_str(",\n");
     }
     s.push_str("}\n");
+    if !e.macro_args.is_empty() {
+        let args: Vec<&str> = e.macro_args.iter().map(|(_, _, a)| a.as_str()).collect();
+        let _ = writeln!(s, "}} }}\nmk_item!({});", args.join(", "));
+    }
     s
 }
 
@@ -426,7 +440,7 @@ pub enum Twin {
 
 fn t_bound_for(e: &EnumSpec) -> &'static str {
     if e.derives("EnumString") || e.derives("EnumIter") || e.derives("FromRepr") {
-        "Default"
+        "::core::default::Default"
     } else {
         ""
     }
@@ -577,19 +591,33 @@ pub fn module_string(e: &EnumSpec, o: &ModOpts) -> ModuleSrc {
     let mut src = Src::default();
     src.push(&format!("pub mod m_{} {{", e.name.to_lowercase()));
     let clone: &[&str] = &["Clone"];
-    let err_path = e.parse_err() && e.hash64() % 2 == 0;
+    // how the custom error function is named: plain, multi-segment path, associated function reached through
+    // `Self`, generic function with a turbofish
+    let err_form = if e.parse_err() { e.hash64() % 4 } else { 9 };
+    let err_path = err_form == 0 || err_form == 3;
     let emit_one = |e: &EnumSpec, name: &str, src: &mut Src, mark_def: bool| {
         let mut eo = enum_opts(e, name);
         if e.use_phf() {
             eo.extra_std_derives = clone;
         }
-        if err_path {
-            eo.err_fn = "errs::mk_err";
+        match err_form {
+            0 => eo.err_fn = "errs::mk_err",
+            2 => eo.err_fn = "Self::mk_err_assoc",
+            3 => eo.err_fn = "errs::mk_err_g::<u8>",
+            _ => {}
         }
         if mark_def {
             src.ranged("def", |s| s.push(&enum_def(e, &eo)));
         } else {
             src.push(&enum_def(e, &eo));
+        }
+        if err_form == 2 {
+            let mut nd = e.clone();
+            nd.generic_defaults = false;
+            let gi = generics(&nd, eo.t_bound, eo.t_inst);
+            let gu = generics(&nd, "", eo.t_inst);
+            let params = gu.decl.replace("'a", "'a").replace("T", "T").replace("const N: usize", "N");
+            src.push(&format!("impl{} {}{}{} {{ pub fn mk_err_assoc(s: &str) -> vrt::MyErr {{ mk_err(s) }} }}", gi.decl, name, params, gi.where_clause));
         }
         let g = generics(e, eo.t_bound, eo.t_inst);
         src.push(&glue_base(e, name, &g.inst));
@@ -601,7 +629,7 @@ pub fn module_string(e: &EnumSpec, o: &ModOpts) -> ModuleSrc {
     if e.parse_err() {
         src.push("pub static ERR_CNT: ::std::sync::atomic::AtomicUsize = ::std::sync::atomic::AtomicUsize::new(0);");
         if err_path {
-            src.push("pub mod errs { pub fn mk_err(s: &str) -> vrt::MyErr { super::ERR_CNT.fetch_add(1, ::std::sync::atomic::Ordering::SeqCst); vrt::MyErr(s.to_string()) } }");
+            src.push("pub mod errs { pub fn mk_err(s: &str) -> vrt::MyErr { super::ERR_CNT.fetch_add(1, ::std::sync::atomic::Ordering::SeqCst); vrt::MyErr(s.to_string()) } pub fn mk_err_g<X>(s: &str) -> vrt::MyErr { mk_err(s) } }");
             src.push("pub fn mk_err(s: &str) -> vrt::MyErr { vrt::MyErr(format!(\"DECOY:{}\", s)) }");
         } else {
             src.push("pub fn mk_err(s: &str) -> vrt::MyErr { ERR_CNT.fetch_add(1, ::std::sync::atomic::Ordering::SeqCst); vrt::MyErr(s.to_string()) }");
@@ -644,7 +672,8 @@ pub fn module_string(e: &EnumSpec, o: &ModOpts) -> ModuleSrc {
                     src.push("pub use super::errs;");
                 }
             }
-            let n2 = format!("{}Tw", name);
+            // the phf twin sits in its own module: it keeps the type name (a name such as `Map` must work there too)
+            let n2 = if tw == Twin::Phf { name.clone() } else { format!("{}Tw", name) };
             let mut t2 = String::new();
             let tag = if tw == Twin::Phf { "C16:phf-twin" } else { "twin" };
             src.ranged(tag, |src| {
@@ -950,6 +979,9 @@ pub fn module_disc(e: &EnumSpec, o: &ModOpts) -> ModuleSrc {
     }
     if e.repr_int.is_some() && !e.repr.as_deref().unwrap_or("").contains("align") {
         src.push(&format!("    fn d_sizes() -> Option<(usize, usize)> {{ Some((::core::mem::size_of::<D>(), ::core::mem::size_of::<{}>())) }}", r));
+    } else if e.repr.as_deref() == Some("C") {
+        // a field-less #[repr(C)] enum has the size of the platform's C int
+        src.push("    fn d_sizes() -> Option<(usize, usize)> { Some((::core::mem::size_of::<D>() * 1000 + ::core::mem::align_of::<D>(), ::core::mem::size_of::<::core::ffi::c_int>() * 1000 + ::core::mem::align_of::<::core::ffi::c_int>())) }");
     }
     let has = |d: &str| opts.derives.iter().any(|x| x == d || x.ends_with(&format!("::{}", d)));
     if has("EnumIter") {
@@ -964,6 +996,9 @@ pub fn module_disc(e: &EnumSpec, o: &ModOpts) -> ModuleSrc {
             src.tagged(&format!("        {} => format!(\"{{}}\", D::{}),", i, v.ident), "C09:derive-Display");
         }
         src.push("        _ => panic!() }) }");
+    }
+    if has("Default") {
+        src.tagged("    fn d_default() -> Option<usize> { Some(d_idx(&<D as ::core::default::Default>::default())) }", "C09:derive-Default");
     }
     if has("VariantNames") {
         src.tagged("    fn d_names() -> Option<Vec<String>> { Some(<D as strum::VariantNames>::VARIANTS.iter().map(|s| s.to_string()).collect()) }", "C09:derive-VariantNames");
@@ -1001,6 +1036,21 @@ pub fn module_disc(e: &EnumSpec, o: &ModOpts) -> ModuleSrc {
 
 /// the enum item alone (attributes + enum), without the helper functions emitted in front of it
 pub fn enum_item(e: &EnumSpec, o: &EnumOpts) -> String {
+    // the in-process engine parses the item itself: fragments are substituted textually (parenthesised)
+    let mut e2;
+    let mut e = e;
+    if !e.macro_args.is_empty() {
+        e2 = e.clone();
+        for v in e2.variants.iter_mut() {
+            if let Some(d) = v.disc.as_mut() {
+                for (n, _, a) in &e.macro_args {
+                    d.text = d.text.replace(&format!("${}", n), &format!("({})", a));
+                }
+            }
+        }
+        e2.macro_args.clear();
+        e = &e2;
+    }
     let d = enum_def(e, o);
     match d.find("//@item\n") {
         Some(i) => d[i + 8..].to_string(),
